@@ -20,7 +20,7 @@ var ghostC05Inflight int32
 // schedule of M+1 callers with at most p preemptions (at every atomic operation and every plain access to the bucket),
 // never more than M callers are between a successful TryAcquire and their Release, and once all have finished exactly M
 // new requests are admitted (no leaked or phantom slot). Optionally one caller resizes the bucket instead.
-// verif:bounds M = 1 with 2 callers (quick), M = 2 with 3 callers (thorough); preemption budget 2 (quick) / 3 (thorough); optional concurrent Resize to M' in {0,1,2} by an extra thread
+// verif:bounds M = 1 with 2 callers (quick), M = 2 with 3 callers (thorough); preemption budget 2; optional concurrent Resize to M' in {0,1,2} by an extra thread
 func HarnessC05Schedules() {
 	M := vbound(1, 2)
 	fc := NewFlowControl(proxyv1alpha1.FlowControlSchema{Name: "mif", FlowControlSchemaConfiguration: proxyv1alpha1.FlowControlSchemaConfiguration{
@@ -48,7 +48,7 @@ func HarnessC05Schedules() {
 	if resize {
 		vthread(func() { fc.Resize(uint32(newM), 0) })
 	}
-	vrunThreads(vbound(2, 3))
+	vrunThreads(2)
 	// quiescence: every slot is back
 	want := M
 	if resize {
